@@ -19,6 +19,8 @@ pub enum Beh {
     /// proper reply with these IIN1 bits (RESTART 0x80, NEED_TIME 0x10, class bits)
     Ok(u8),
     Iin2Reject(u8),
+    /// IIN2 rejection (first field) that also shows IIN1 bits (second field): the indications count all the same
+    Iin2RejectWith(u8, u8),
     /// reply that cannot be accepted (unparsable objects for a READ, FIN missing otherwise)
     Malformed,
     Silence,
@@ -107,6 +109,7 @@ impl Prop for Startup {
         let beh = prop_oneof![
             8 => prop_oneof![6 => Just(0u8), 2 => Just(0x80u8), 1 => Just(0x10u8), 1 => Just(0x90u8), 1 => Just(0x02u8)].prop_map(Beh::Ok),
             1 => (1u8..8).prop_map(Beh::Iin2Reject),
+            1 => (1u8..8, prop_oneof![Just(0x80u8), Just(0x90u8), Just(0x10u8)]).prop_map(|(a, b)| Beh::Iin2RejectWith(a, b)),
             1 => Just(Beh::Malformed),
             2 => Just(Beh::Silence),
         ];
@@ -372,6 +375,7 @@ async fn run_case(case: &Case) -> CaseOut {
         }
         let mut success = false;
         let mut fail_time = t;
+        let mut late_iin: Option<u8> = None;
         match beh {
             Beh::Ok(i1) => {
                 r.iin = Some((*i1, 0));
@@ -390,13 +394,13 @@ async fn run_case(case: &Case) -> CaseOut {
                 if last_time_step && *i1 & iin1::NEED_TIME != 0 {
                     success = false;
                 }
-                // indications are processed before the task's own result
-                let was_clear_pending = m.need[0];
-                on_iin(&mut m, case, *i1);
-                if kind == Kind::Clear && was_clear_pending && success {
-                    // restart seen in this very reply is impossible here (success requires the bit clear)
-                }
+                // the indications of this reply are applied AFTER the task's own result (below): a restart shown in the
+                // reply to the integrity poll or to ENABLE_UNSOLICITED re-arms that very step ("whenever a response
+                // shows the restart indication it first clears that bit, then repeats the integrity poll and the
+                // enable step")
+                late_iin = Some(*i1);
                 if kind == Kind::Time && !last_time_step {
+                    on_iin(&mut m, case, *i1);
                     m.time_step = 1;
                     success = false; // not finished yet, but not failed either
                     fail_time = 0;
@@ -419,13 +423,19 @@ async fn run_case(case: &Case) -> CaseOut {
                     continue;
                 }
             }
-            Beh::Iin2Reject(b) => {
-                r.iin = Some((0, *b & 0x07));
+            Beh::Iin2Reject(b) | Beh::Iin2RejectWith(b, _) => {
+                let i1 = if let Beh::Iin2RejectWith(_, i) = beh { *i } else { 0 };
+                if i1 & iin1::RESTART != 0 {
+                    out.label("restart_seen");
+                    out.label("restart_in_rejection");
+                }
+                late_iin = Some(i1);
+                r.iin = Some((i1, *b & 0x07));
                 rig.respond(OUT, &r);
                 rig.settle().await;
                 fail_time = rig.now_ms();
                 // the purpose of the restart-bit write is achieved when a reply shows the bit clear, rejected or not
-                if kind == Kind::Clear {
+                if kind == Kind::Clear && i1 & iin1::RESTART == 0 {
                     success = true;
                 }
             }
@@ -445,15 +455,23 @@ async fn run_case(case: &Case) -> CaseOut {
                 fail_time = t + TIMEOUT;
             }
         }
+        // a step that was already on the wire when a restart indication arrived (unsolicited) does not count as the
+        // repetition the restart calls for
+        let overtaken = sent_before_indication && m.need[0] && matches!(ki, Some(2) | Some(4));
+        if overtaken {
+            out.label("step_overtaken_by_restart");
+        }
         if let Some(kix) = ki {
-            if success {
+            if success && overtaken {
+                m.fails[kix] = (0, None, 0);
+            } else if success {
                 m.need[kix] = false;
                 m.fails[kix] = (0, None, 0);
                 m.time_step = 0;
                 if kix == 2 {
                     m.integrity_done = true;
                 }
-            } else if matches!(beh, Beh::Iin2Reject(_)) && matches!(kix, 1 | 4) {
+            } else if matches!(beh, Beh::Iin2Reject(_) | Beh::Iin2RejectWith(..)) && matches!(kix, 1 | 4) {
                 // rejected by the outstation: giving up and retrying with back-off are both accepted
                 m.open[kix] = true;
                 m.fails[kix] = (0, None, 0);
@@ -462,6 +480,12 @@ async fn run_case(case: &Case) -> CaseOut {
                 m.fails[kix] = (n, Some(fail_time), k);
                 m.time_step = 0;
             }
+        }
+        if let Some(i1) = late_iin {
+            if i1 & iin1::RESTART != 0 && matches!(ki, Some(2) | Some(4)) && success {
+                out.label("restart_in_reply_to_the_step_it_rearms");
+            }
+            on_iin(&mut m, case, i1);
         }
         inject_after(
             &mut rig,
